@@ -190,11 +190,21 @@ def build_harness(profile="dev"):
 # ---------------------------------------------------------------------------
 # running the two executors
 
+def _limit_address_space():
+    # a reader that trusts a garbage length asks for tens of gigabytes; fail that allocation at once instead of paging
+    import resource
+    try:
+        resource.setrlimit(resource.RLIMIT_AS, (24 << 30, 24 << 30))
+    except (ValueError, OSError):
+        pass
+
+
 def _run_exec(cmd, env, timeout):
     e = dict(os.environ)
     e.update(env or {})
     try:
-        p = subprocess.run(cmd, stdout=subprocess.PIPE, stderr=subprocess.PIPE, env=e, timeout=timeout)
+        p = subprocess.run(cmd, stdout=subprocess.PIPE, stderr=subprocess.PIPE, env=e, timeout=timeout,
+                           preexec_fn=_limit_address_space if os.path.basename(cmd[0]) == "xv" else None)
         return p.returncode, p.stdout.decode("utf-8", "replace"), p.stderr.decode("utf-8", "replace")[-2000:]
     except subprocess.TimeoutExpired:
         return -9, "", "timeout"
@@ -261,6 +271,7 @@ def run_both(stream, cases, scratch, xv, env=None, timeout=900, model=True, impl
             if model:
                 jobs.append(("model", p, ex.submit(_run_exec, ["bash", "-c", "ulimit -s unlimited 2>/dev/null; exec \"$0\" \"$1\" \"$2\"", drv, model_stream or stream, mfiles[p]], None, timeout)))
         iobs, iorc, mobs, errors = pre_iobs, pre_iorc, {}, pre_errors
+        crashed_files = []
         for kind, p, fut in jobs:
             rc, out, err = fut.result()
             o, c = parse_lines(out)
@@ -271,6 +282,31 @@ def run_both(stream, cases, scratch, xv, env=None, timeout=900, model=True, impl
                 mobs.update(o)
             if rc != 0:
                 errors.append("%s executor failed on %s (rc=%s): %s" % (kind, os.path.basename(p), rc, err.strip()[-400:]))
+                if kind == "impl":
+                    crashed_files.append(p)
+    # an implementation executor that died (abort, kill, stack overflow) takes the later cases of its file with it: run the
+    # cases that produced nothing one per process, so that the crashing input is named and the others are still judged
+    if impl and not prep_impl:
+        lone = []
+        for p in crashed_files:
+            with open(p) as f:
+                for line in f:
+                    cid = line.split(" ", 1)[0]
+                    if cid and cid not in iobs:
+                        lp = os.path.join(scratch, "lone_%s.cases" % cid)
+                        with open(lp, "w") as g:
+                            g.write(line)
+                        lone.append((cid, lp))
+        with concurrent.futures.ThreadPoolExecutor(max_workers=NPROC) as ex:
+            futs = [(cid, ex.submit(_run_exec, [xv, stream, lp], env, min(timeout, 300))) for cid, lp in lone]
+        for cid, fut in futs:
+            rc, out, err = fut.result()
+            o, c = parse_lines(out)
+            iobs.update(o)
+            iorc.update(c)
+            if cid not in iobs:
+                iobs[cid] = ["PANIC"]
+                iorc.setdefault(cid, []).append("FAIL the implementation process died on this case (rc=%s): %s" % (rc, err.strip()[-200:].replace("\n", " | ")))
     return iobs, iorc, mobs, errors
 
 
